@@ -46,8 +46,10 @@ type replica struct {
 	store   *memStore
 	alive   bool
 	removed bool // self-removal applied: stopped for good
-	incarn  int
-	joined  bool // started with join=true (added later)
+	// lastStep: the step worker iteration that overlaps the removal is still to run
+	lastStep bool
+	incarn   int
+	joined   bool // started with join=true (added later)
 	// bootstrap is the durable bootstrap record (initial members)
 	bootstrap map[uint64]string
 
@@ -125,6 +127,10 @@ func (r *replica) RestoreRemotes(ss pb.Snapshot) error {
 func (r *replica) selfRemoved() {
 	if !r.removed {
 		r.removed = true
+		// node.requestRemoval stops the node from the apply worker; the step worker may be in
+		// the middle of an iteration with messages it already took from the queue: one more
+		// step over what is in the inbox now (nothing is delivered to a removed replica)
+		r.lastStep = len(r.inbox) > 0
 		r.sim.mon.count("self_removed", 1)
 	}
 }
@@ -246,8 +252,12 @@ func isSoftSnapshotError(err error) bool {
 // by the per-node part of engine.processSteps. crashAt selects a crash point.
 // It returns true if the replica crashed inside the step.
 func (r *replica) step(crashAt int) bool {
-	if !r.alive || r.removed {
+	if !r.alive || (r.removed && !r.lastStep) {
 		return false
+	}
+	if r.lastStep {
+		r.lastStep = false
+		r.sim.mon.count("steps_overlapping_self_removal", 1)
 	}
 	r.sim.mon.onStepBegin(r)
 	// ---- node.handleEvents ----
